@@ -18,15 +18,15 @@ func NewModelServer(model *Model) *ModelServer {
 	return &ModelServer{model: model}
 }
 
-func (s *ModelServer) GetButtonState(ctx context.Context, request *traits.GetPressedStateRequest) (*traits.PressedState, error) {
+func (s *ModelServer) GetPressedState(ctx context.Context, request *traits.GetPressedStateRequest) (*traits.PressedState, error) {
 	return s.model.GetPressedState(resource.WithReadMask(request.ReadMask)), nil
 }
 
-func (s *ModelServer) UpdateButtonState(ctx context.Context, request *traits.UpdatePressedStateRequest) (*traits.PressedState, error) {
+func (s *ModelServer) UpdatePressedState(ctx context.Context, request *traits.UpdatePressedStateRequest) (*traits.PressedState, error) {
 	return s.model.UpdatePressedState(request.PressedState, resource.WithUpdateMask(request.UpdateMask))
 }
 
-func (s *ModelServer) PullButtonState(request *traits.PullPressedStateRequest, server traits.PressApi_PullPressedStateServer) error {
+func (s *ModelServer) PullPressedState(request *traits.PullPressedStateRequest, server traits.PressApi_PullPressedStateServer) error {
 	changes := s.model.PullPressedState(server.Context(),
 		resource.WithReadMask(request.ReadMask),
 		resource.WithUpdatesOnly(request.UpdatesOnly),
@@ -47,4 +47,25 @@ func (s *ModelServer) PullButtonState(request *traits.PullPressedStateRequest, s
 	}
 
 	return server.Context().Err()
+}
+
+// GetButtonState is the former name of GetPressedState.
+//
+// Deprecated: the method did not implement traits.PressApiServer under this name (the RPC answered Unimplemented).
+func (s *ModelServer) GetButtonState(ctx context.Context, request *traits.GetPressedStateRequest) (*traits.PressedState, error) {
+	return s.GetPressedState(ctx, request)
+}
+
+// UpdateButtonState is the former name of UpdatePressedState.
+//
+// Deprecated: the method did not implement traits.PressApiServer under this name (the RPC answered Unimplemented).
+func (s *ModelServer) UpdateButtonState(ctx context.Context, request *traits.UpdatePressedStateRequest) (*traits.PressedState, error) {
+	return s.UpdatePressedState(ctx, request)
+}
+
+// PullButtonState is the former name of PullPressedState.
+//
+// Deprecated: the method did not implement traits.PressApiServer under this name (the RPC answered Unimplemented).
+func (s *ModelServer) PullButtonState(request *traits.PullPressedStateRequest, server traits.PressApi_PullPressedStateServer) error {
+	return s.PullPressedState(request, server)
 }
